@@ -51,6 +51,7 @@ bool muggle_hash_table_init(muggle_hash_table_t *p_hash_table, size_t table_size
 		if (!muggle_memory_pool_init(p_hash_table->pool, (unsigned int)capacity, sizeof(muggle_hash_table_node_t)))
 		{
 			free(p_hash_table->pool);
+			p_hash_table->pool = NULL;
 			return false;
 		}
 	}
